@@ -8,6 +8,7 @@ import (
 	"go/constant"
 	"go/token"
 	"go/types"
+	"os"
 	"strings"
 
 	"golang.org/x/tools/go/ssa"
@@ -232,7 +233,38 @@ func (fc *fnCtx) unbox(st *State, v Val, t types.Type) Val {
 // obligations
 
 func (fc *fnCtx) emit(st *State, name, kind, clause, loc, goal string, props []string) {
+	if os.Getenv("VERIF_SPLIT") != "" && strings.HasPrefix(goal, "(and ") {
+		for i, part := range splitTop(goal[5 : len(goal)-1]) {
+			fc.emit(st, fmt.Sprintf("%s#%d", name, i+1), kind, clause+" [conjunct "+fmt.Sprint(i+1)+": "+trunc(part, 200)+"]", loc, part, props)
+		}
+		return
+	}
 	fc.emitQ(st, name, kind, clause, loc, goal, props, false)
+}
+
+// splitTop splits a space-separated list of s-expressions at nesting depth 0.
+func splitTop(s string) []string {
+	var out []string
+	depth, start := 0, 0
+	for i, c := range s {
+		switch c {
+		case '(':
+			depth++
+		case ')':
+			depth--
+		case ' ':
+			if depth == 0 {
+				if i > start {
+					out = append(out, s[start:i])
+				}
+				start = i + 1
+			}
+		}
+	}
+	if start < len(s) {
+		out = append(out, s[start:])
+	}
+	return out
 }
 
 func (fc *fnCtx) emitQ(st *State, name, kind, clause, loc, goal string, props []string, vacuity bool) {
@@ -481,7 +513,10 @@ func (fc *fnCtx) havocLoopWrites(st *State, fr *frame, li *loopInfo) {
 			case *ssa.Store:
 				fc.writeTarget(st, ins.Addr, addWrite)
 			case *ssa.MapUpdate:
-				whole["map.dom"], whole["map.get"], whole["map.card"] = true, true, true
+				fc.mapRegions(st)
+				for _, r := range []string{"map.dom", "map.get", "map.card"} {
+					addWrite(r, ins.Map, func() string { return fc.val(st, ins.Map).T })
+				}
 			case *ssa.Next:
 				whole["range.pos"] = true
 			case *ssa.Range:
@@ -592,7 +627,14 @@ func (fc *fnCtx) callWrites(st *State, fr *frame, call *ssa.Call, inLoop func(ss
 				precise(rn, app("sl_arr", fc.val(st, c.Args[0]).T))
 			}
 		case "delete":
-			whole["map.dom"], whole["map.get"], whole["map.card"] = true, true, true
+			fc.mapRegions(st)
+			for _, r := range []string{"map.dom", "map.get", "map.card"} {
+				if inLoop(c.Args[0]) {
+					whole[r] = true
+				} else {
+					precise(r, fc.val(st, c.Args[0]).T)
+				}
+			}
 		case "close":
 			whole["chan.closed"] = true
 		}
@@ -948,6 +990,9 @@ func (fc *fnCtx) execSimple(st *State, fr *frame, ins ssa.Instruction, k func(*S
 					rn = "F.anon." + f.Name()
 				}
 				fs := sortOfType(f.Type())
+				if named != nil && fc.e.immutableFn(named, f.Name()) != "" {
+					continue
+				}
 				cur := fc.region(st, rn, regionArraySort(fs))
 				z := fc.zeroOf(st, f.Type())
 				st.pc = append(st.pc, eq(sel(cur, r.T), z.T))
@@ -978,7 +1023,14 @@ func (fc *fnCtx) execSimple(st *State, fr *frame, ins ssa.Instruction, k func(*S
 			f = stt.Field(ins.Field)
 			rn = "F.anon." + f.Name()
 		}
-		st.env[ins] = Val{S: SAddr, GT: ins.Type(), A: &Addr{Kind: "field", Region: rn, Base: x.T, Sort: sortOfType(f.Type()), GT: f.Type()}}
+		ad := &Addr{Kind: "field", Region: rn, Base: x.T, Sort: sortOfType(f.Type()), GT: f.Type()}
+		if ok {
+			if fn := fc.e.immutableFn(named, f.Name()); fn != "" {
+				ad.Kind = "immutable"
+				ad.Region = "u." + fn
+			}
+		}
+		st.env[ins] = Val{S: SAddr, GT: ins.Type(), A: ad}
 	case *ssa.IndexAddr:
 		x := fc.val(st, ins.X)
 		idx := fc.val(st, ins.Index)
@@ -987,7 +1039,7 @@ func (fc *fnCtx) execSimple(st *State, fr *frame, ins ssa.Instruction, k func(*S
 			fc.runtimeCheck(st, fr, ins, "index", fmt.Sprintf("(or (< %s 0) (>= %s (sl_len %s)))", idx.T, idx.T, x.T))
 			es := sortOfType(t.Elem())
 			rn, _ := elemsRegion(es)
-			st.env[ins] = Val{S: SAddr, GT: ins.Type(), A: &Addr{Kind: "elem", Region: rn, Base: app("sl_arr", x.T), Idx: fmt.Sprintf("(+ (sl_off %s) %s)", x.T, idx.T), Sort: es, GT: t.Elem()}}
+			st.env[ins] = Val{S: SAddr, GT: ins.Type(), A: &Addr{Kind: "elem", Region: rn, Base: app("sl_arr", x.T), Idx: fmt.Sprintf("(+ (sl_off %s) %s)", x.T, idx.T), Sort: es, GT: t.Elem(), Slice: x.T, Rel: idx.T}}
 		case *types.Pointer:
 			arr := t.Elem().Underlying().(*types.Array)
 			fc.runtimeCheck(st, fr, ins, "index", fmt.Sprintf("(or (< %s 0) (>= %s %d))", idx.T, idx.T, arr.Len()))
@@ -1203,12 +1255,19 @@ func (fc *fnCtx) loadFrom(st *State, a Val, t types.Type) Val {
 	if a.A != nil {
 		ad := a.A
 		switch ad.Kind {
+		case "immutable":
+			fc.useDecl(st, ad.Region)
+			return Val{T: app(ad.Region, ad.Base), S: ad.Sort, GT: ad.GT}
 		case "field":
 			r := fc.region(st, ad.Region, regionArraySort(ad.Sort))
 			return Val{T: sel(r, ad.Base), S: ad.Sort, GT: ad.GT}
 		case "elem":
 			_, rs := elemsRegion(ad.Sort)
 			r := fc.region(st, ad.Region, rs)
+			if ad.Sort == SU && ad.Slice != "" {
+				// the same element seen through the sequence view (creates the term specifications talk about)
+				st.pc = append(st.pc, eq(sel(sel(r, ad.Base), ad.Idx), app("sq_at", app("sq_of", sel(r, ad.Base), app("sl_off", ad.Slice), app("sl_len", ad.Slice)), ad.Rel)))
+			}
 			return Val{T: sel(sel(r, ad.Base), ad.Idx), S: ad.Sort, GT: ad.GT}
 		case "global":
 			r := fc.region(st, ad.Region, ad.Sort.SMT())
@@ -1226,6 +1285,16 @@ func (fc *fnCtx) storeTo(st *State, fr *frame, ins ssa.Instruction, a Val, v Val
 	if a.A != nil {
 		ad := a.A
 		switch ad.Kind {
+		case "immutable":
+			// an immutable field is written exactly once, on an object allocated by this function
+			if v.S != ad.Sort {
+				v = fc.coerce(st, v, ad.Sort)
+			}
+			fc.useDecl(st, ad.Region)
+			fc.emit(st, fc.oblName(fr, "immutable@"+fc.instrLabel(fr, ins)), "immutable", "an immutable field is only initialised on a freshly allocated object", fc.posOf(ins),
+				fmt.Sprintf("(>= (atime %s) %s)", ad.Base, fc.top.entryT), nil)
+			st.pc = append(st.pc, eq(app(ad.Region, ad.Base), v.T))
+			return
 		case "field":
 			if v.S != ad.Sort {
 				v = fc.coerce(st, v, ad.Sort)
@@ -1252,6 +1321,9 @@ func (fc *fnCtx) storeTo(st *State, fr *frame, ins ssa.Instruction, a Val, v Val
 	r := fc.region(st, rn, rs)
 	fc.setRegion(st, rn, rs, store(r, a.T, v.T))
 }
+
+// useDecl makes sure a declared spec function is declared in this query (axiomText does it by name scan).
+func (fc *fnCtx) useDecl(st *State, name string) {}
 
 func (fc *fnCtx) coerce(st *State, v Val, s Sort) Val {
 	if v.S == s {
